@@ -418,6 +418,10 @@ func runC09(prop, tier string, c *kernel.Chooser, r *kernel.Recorder) *kernel.Vi
 		s.step()
 		r.Steps++
 	}
+	if s.viol == nil && s.cs != nil && c.Chance(450) {
+		r.Fault("concurrent_readers_and_writer")
+		s.concurrentPhase(20 + c.Intn(80))
+	}
 	if s.viol == nil && s.cs != nil {
 		s.compareAll("end of history")
 		s.dropSubs()
